@@ -77,6 +77,13 @@ Proof.
   - eexists. split; vm_compute; reflexivity.
 Qed.
 
+(* the functions of the modelled source are exactly the functions the model was written against
+   (gen/GenApi.v is regenerated from /repo on every run; see Model/ApiSurface.v) *)
+From V Require gen.GenApi Model.ApiSurface.
+Theorem C03_api_lib_reader : GenApi.api_lib_reader = ApiSurface.expected_lib_reader.
+Proof. reflexivity. Qed.
+
+Print Assumptions C03_api_lib_reader.
 Print Assumptions C03_fill_spec.
 Print Assumptions C03_position_spec.
 Print Assumptions C03_set_position_spec.
